@@ -6,7 +6,7 @@ from . import registry as R, leandriver, bits
 
 
 class Job:
-    __slots__ = ('e', 'regime', 'inverse', 'x', 'ctx', 'kind', 'y', 'ld', 'reqs', 'rec_inputs', 'tag', 'prec', 't', 'resp', 'nograd')
+    __slots__ = ('e', 'regime', 'inverse', 'x', 'ctx', 'kind', 'y', 'ld', 'reqs', 'rec_inputs', 'tag', 'prec', 't', 'resp', 'nograd', 'nc')
 
     def __init__(self, **kw):
         for k in self.__slots__:
@@ -48,8 +48,25 @@ def make_job(e, t, x, ctx, inverse, regime='', tag=None):
     # same function)
     with torch.no_grad():
         ng = R.impl_call(t, x, ctx, inverse)
+    # the same values handed over as a dense NON-CONTIGUOUS tensor (a transposed batch, a channels-last image): same function
+    nc = None
+    xn = noncontiguous(x)
+    if xn is not None and tag != 'backward':
+        nc = R.impl_call(t, xn, ctx, inverse)
     return Job(e=e, regime=regime, inverse=inverse, x=x, ctx=ctx, kind=kind, y=y, ld=ld, reqs=reqs, rec_inputs=rec_inputs,
-               tag=tag, prec=prec, t=t, nograd=ng)
+               tag=tag, prec=prec, t=t, nograd=ng, nc=nc)
+
+
+def noncontiguous(x):
+    """a tensor equal to x whose memory layout is dense but not contiguous (None when there is no such layout)"""
+    if x.dim() == 2 and x.shape[0] > 1 and x.shape[1] > 1:
+        xn = x.detach().t().contiguous().t()
+    elif x.dim() == 4 and x.shape[1] > 1 and x.shape[2] * x.shape[3] > 1:
+        xn = x.detach().permute(0, 2, 3, 1).contiguous().permute(0, 3, 1, 2)
+    else:
+        return None
+    assert not xn.is_contiguous() and torch.equal(xn, x)
+    return xn
 
 
 def run_jobs(jobs):
@@ -105,6 +122,21 @@ def compare(ctx, j, prop, observables=('out', 'ld'), atol=1e-9, rtol=1e-9, check
         if k2 != j.kind or (k2 == 'ok' and not (torch.equal(torch.nan_to_num(y2, nan=1.25e300), torch.nan_to_num(j.y, nan=1.25e300))
                                                and torch.equal(torch.nan_to_num(l2, nan=1.25e300), torch.nan_to_num(j.ld, nan=1.25e300)))):
             ctx.disagree(prop + '/' + e.kind, case, {'no_grad': k2}, {'grad': j.kind}, 'evaluation under torch.no_grad() differs from evaluation with autograd')
+    if j.nc is not None:
+        k3, y3, l3 = j.nc
+        bad = k3 != j.kind
+        if not bad and k3 == 'ok':
+            tol = 1e-3 if j.prec == 'f32' else 1e-7
+            ldr = j.ld.detach().abs().clamp(max=50.0).exp().reshape([-1] + [1] * (j.y.dim() - 1))
+            dy = (y3.detach() - j.y.detach()).abs()
+            dl = (l3.detach() - j.ld.detach()).abs()
+            fin = torch.isfinite(j.y.detach()).all() and torch.isfinite(j.ld.detach()).all()
+            if fin and (tuple(y3.shape) != tuple(j.y.shape) or not bool((dy <= tol * (1 + j.y.detach().abs()) * ldr).all())
+                        or not bool((dl <= tol * (1 + j.ld.detach().abs()) * ldr.reshape(-1)).all())):
+                bad = True
+        if bad:
+            ctx.disagree(prop + '/' + e.kind, case, {'noncontiguous': k3}, {'contiguous': j.kind},
+                         'the same values passed as a dense non-contiguous tensor give a different result')
     if not j.resp:
         ctx.case(n=n, branch=br + '/no-model')
         if j.kind != 'ok':
